@@ -290,6 +290,68 @@ def fresh_process_probe(ctx, name, arg, text, d):
     return None if got == want else f'candidates-depend-on-what-the-process-saw-before:{name}'
 
 
+def reuse_probe(ctx):
+    """producing candidates is a function of the file, the cursor and the configuration: a pass object that has been used
+    before (on another file, through accepts and rejects, with a sanity check that failed) must hand out the same first
+    cursor, the same reformatted file and the same first candidate as a fresh object of the same configuration"""
+    from cvise.utils.error import InsaneTestCaseError
+
+    def insane():
+        raise InsaneTestCaseError(['a.c'], 'test')
+
+    def first(p, text, d, tag):
+        f = d / f'{tag}.c'
+        f.write_text(text)
+        st = p.new(str(f), lambda: None)
+        after_new = f.read_text()
+        if st is None:
+            return ('none', after_new, None)
+        res, st2 = p.transform(str(f), copy.deepcopy(st), ProcessEventNotifier(None))
+        return (snapshot(st), after_new, (res.name, f.read_text()))
+
+    texts = {'tool': ('int a;\nint b;\n#if X\nint c;\n#endif\nint f() { return 1; }\n', TOOL_TEXT)}
+    todo = [(n, a) for n, a in TOOL_PASSES] + [('lines', '1'), ('lines', '10'), ('lines', 'None')] + list(T.PASSES)
+    for name, arg in todo:
+        d = Path(tempfile.mkdtemp(prefix='c11r-', dir=ctx.scratch))
+        try:
+            tA, tB = texts['tool'] if (name, arg) not in T.PASSES else (T.gen_text(name, arg, ctx.rng), T.gen_text(name, arg, ctx.rng))
+            os.environ['CD_SCEN'] = str(d / 'cd.json')
+            os.environ['CD_LOG'] = str(d / 'cd.log')
+            (d / 'cd.json').write_text('{}')
+            (d / 'cd.log').write_text('')
+            used = make(name, arg)
+            fa = d / 'used.c'
+            fa.write_text(tA)
+            for sanity in (insane, lambda: None):          # a first visit whose reformatted text fails the sanity check, then a normal one
+                fa.write_text(tA)
+                st = used.new(str(fa), sanity)
+                for k in range(3):
+                    if st is None:
+                        break
+                    keep = fa.read_text()
+                    res, st2 = used.transform(str(fa), copy.deepcopy(st), ProcessEventNotifier(None))
+                    if res != PassResult.OK:
+                        break
+                    if k == 1:                      # accepted: the candidate stays
+                        st = used.advance_on_success(str(fa), st2)
+                    else:                           # rejected: the file is what it was
+                        fa.write_text(keep)
+                        st = used.advance(str(fa), st)
+            got = first(used, tB, d, 'b-used')
+            want = first(make(name, arg), tB, d, 'b-fresh')
+            ctx.count()
+            if got != want:
+                what = 'first cursor' if got[0] != want[0] else ('file after new()' if got[1] != want[1] else 'first candidate')
+                ctx.report(f'candidates-depend-on-earlier-use-of-the-pass-object:{name}', f'{name}::{arg}: {what} for {tB[:40]!r} differs between a pass object used before (on {tA[:30]!r}, one visit with a failing sanity check) and a fresh one: {str(got[0])[:80]} vs {str(want[0])[:80]}',
+                           {'kind': 'reuse', 'pass': name, 'arg': arg, 'hist': 'reuse-probe', 'textA': tA, 'textB': tB})
+            else:
+                ctx.nontrivial(('reuse', name, arg, tB))
+        except Exception as e:  # noqa: BLE001
+            ctx.notes.setdefault('exceptions', []).append(f'reuse {name}::{arg}: {type(e).__name__}: {e}'[:200])
+        finally:
+            shutil.rmtree(d, ignore_errors=True)
+
+
 def cases(ctx):
     rng = ctx.rng
     quick = ctx.tier == 'quick'
@@ -340,6 +402,10 @@ def run(ctx):
             raising_helper_probe(ctx)
             print('replayed ->', 'fails' if ctx.violations else 'holds')
             return 1 if ctx.violations else 0
+        if o.get('kind') == 'reuse':
+            reuse_probe(ctx)
+            print('replayed ->', 'fails' if ctx.violations else 'holds')
+            return 1 if ctx.violations else 0
         d = Path(tempfile.mkdtemp(prefix='c11-', dir=ctx.scratch))
         try:
             if o['hist'] == 'fresh-process-probe':
@@ -357,6 +423,7 @@ def run(ctx):
         return 1 if ctx.violations else 0
     ctx.lean_gate(OBLIGATIONS)
     raising_helper_probe(ctx)
+    reuse_probe(ctx)
     per = {}
     sib = None
     fresh_budget = [30 if ctx.tier == 'quick' else 300]
